@@ -227,6 +227,10 @@ func (g *genState) desc(cur *refobj.Desc) Desc {
 		own[i], own[j] = own[j], own[i]
 	}
 	d := Desc{Own: own}
+	if r.Chance(1, 8) && len(own) > 1 {
+		d.Rd = true
+		return d
+	}
 	if r.Chance(1, 14) && len(own) > 0 {
 		// move some fields to the descriptor's prototype; own fields may override
 		k := r.Range(1, len(own))
